@@ -176,4 +176,30 @@ func init() {
 			{Name: "laws", Pkg: "c17", Run: "^TestC17MergeLaws$", QuickChecks: 40000, ThoroughChecks: 400000, ThoroughShards: 16},
 		},
 	}
+
+	msgOverlay := []Inject{{RepoRel: "internal/messages/zz_verif_export.go", Src: "overlay/messages_export.go.txt"}}
+	registry["C12"] = &Check{
+		Rule: "message layer: for a registered wire type drawn from the registry (enumerated at run time through an overlay accessor; a type without a generator fails the harness) a value is generated field by field (empty/nil/zero/extreme constants mixed with uniform draws, nested messages to depth 3, nil message fields, absent refs), encoded with Writer.WriteMessage and decoded with Reader.ReadMessage; plus two messages back to back. Envelope layer: system flag x sender/receiver present/absent x internal/custom/Codec message. Primitive layer: 1-4 values of types drawn from a grammar (13 primitives, slices, arrays, structs, depth 3), both byte orders, by value and by pointer. Oracle: semantic equality (documented normalisations), reader position == bytes written. Non-trivial = the value differs from its type's zero value (message layer), contains a composite type (primitive layer), any envelope. Distinct = hash of the encoded bytes.",
+		Assumptions: []string{
+			"int-typed fields are drawn from the int32 range and time.Time from the UnixNano-representable range: the widths are the wire format's",
+			"equality treats nil and empty slices/maps, a nil NodeState entry and an absent one, and errors with equal (code, message) as equal: the wire cannot tell them apart",
+		},
+		Units: []Unit{
+			{Name: "rt", Pkg: "c12", Run: "^(TestC12Messages|TestC12Envelopes|TestC12Primitives)$", QuickChecks: 15000, ThoroughChecks: 400000, ThoroughShards: 16, Inject: msgOverlay},
+		},
+	}
+	registry["C13"] = &Check{
+		Level: "fault_enumeration",
+		Rule:  "decoders: for each sampled valid encoding (message and envelope encoding of a generated value of a registered type) EVERY truncation and EVERY single-byte replacement by {0x00,0x01,0x7f,0x80,0xff,+1,-1} (positions strided above 600 bytes) plus length fields overwritten with hostile constants, splices and random bytes are fed to DecodeEnvelopWithRemoting, Reader.ReadMessage, ReadVersionVector and (sampled) Handshake.Wait, with and without a Codec; every registered reader on crafted bodies; typed Reader.Read into destination types drawn from a grammar (incl. unsupported kinds) with a sentinel-filled destination. Encoders: values of types from a grammar that includes int, uint, uintptr, complex, map, chan, func, named scalars, nil interfaces, nil pointers at every depth; nil, non-pointer, typed-nil and nil-field messages with and without a Codec. Oracle: value or error - no panic, no worker death, allocation <= 64 x input + 16 MiB, destination unchanged on error. Non-trivial = every mutation case; typed reads / reader bodies with >= 4/8 input bytes. Distinct = hash of the case description.",
+		Assumptions: []string{
+			"allocation is measured with runtime/metrics /gc/heap/allocs:bytes around each decode (large allocations are accounted immediately)",
+			"destination types with zero wire size per element ([]struct{}) are not generated: a transmitted count then drives a loop that consumes no input; no message of the library has such a field",
+			"a worker killed by a fatal runtime error (stack overflow, out of memory) is a verdict of the clause no-crash; the case persisted before execution (test name + rapid seed) is the replay",
+		},
+		Units: []Unit{
+			{Name: "enc", Pkg: "c13", Run: "^(TestC13EncodeValues|TestC13EncodeMessages)$", QuickChecks: 20000, ThoroughChecks: 300000, ThoroughShards: 4, Inject: msgOverlay, CaseFile: true, CrashOracle: "no-crash"},
+			{Name: "dec", Pkg: "c13", Run: "^(TestC13RegisteredReaders|TestC13TypedRead)$", QuickChecks: 30000, ThoroughChecks: 400000, ThoroughShards: 4, Inject: msgOverlay, CaseFile: true, CrashOracle: "no-crash"},
+			{Name: "mut", Pkg: "c13", Run: "^TestC13DecodeMutations$", QuickChecks: 150, QuickShards: 4, ThoroughChecks: 2500, ThoroughShards: 8, Inject: msgOverlay, CaseFile: true, CrashOracle: "no-crash"},
+		},
+	}
 }
